@@ -169,6 +169,7 @@ func (l *payloadLogger) Debug(f string, v ...any) {
 var pluginSources = []string{"docker#v5.9.0", "docker", "docker-compose#v4.16.0", "my-org/my-plugin#v1.0.0", "my-org/thing", "github.com/buildkite-plugins/docker-buildkite-plugin#v5.9.0",
 	"github.com/my-org/my-plugin-buildkite-plugin#v1.0.0", "https://github.com/my-org/my-plugin.git#main", "ssh://git@github.com/my-org/repo#v2", "git@github.com:my-org/repo.git#v2",
 	"./.buildkite/plugins/local", "/opt/plugins/abs", "file:///srv/plugin#x", "artifacts#v1.9.0", "ecr#v2.7.0", "a/b/c#d",
+	"My-Org/Deployer#v1.0.0", "my-org/deployer#Release-1", "docker#V5.12.0", "github.com/My-Org/Deployer-buildkite-plugin#v1.0.0",
 	"docker#feature/cache-mounts", "my-org/thing#release/2.x", "github.com/buildkite-plugins/docker-buildkite-plugin#feature/cache-mounts", "cache#v1.0.0-rc.1", "monorepo-diff#refs/tags/v1"}
 
 type signWorld struct {
@@ -218,6 +219,10 @@ func (w *signWorld) str(pos string) string {
 		}
 	case "matrix.dim":
 		return []string{"os", "arch", "go", "node-version", "x.y"}[t.Draw(5, "str:dim")]
+	case "cache.path":
+		if t.Draw(3, "str:pathlike") == 2 {
+			return []string{"dist/", "dist//", "vendor///", "/", "//", "./node_modules/", "a/b//c", ".", "../x/", "~/.cache/"}[t.Draw(10, "str:pathv")]
+		}
 	}
 	isKey := strings.HasSuffix(pos, "key") || strings.HasSuffix(pos, ".name")
 	var s string
